@@ -52,11 +52,17 @@ structure Feat where
 def Feat.T (f : Feat) : Nat := f.dims.headD 0
 
 /-- Content of a file of `ali/`: a 1-D tensor with its values, or a tensor that is **not**
-1-D (only its shape is kept). -/
+1-D (its shape and its entries in storage order, `ali.flatten()`). -/
 inductive AliData where
   | vec (vals : List Int)
-  | nd (shape : List Nat)
+  | nd (shape : List Nat) (flat : List Int)
   deriving DecidableEq, Repr
+
+/-- The entries in storage order: what `ali.unique_consecutive(return_counts=True)` runs over
+(without `dim` it works on the flattened tensor, whatever the number of dimensions). -/
+def AliData.flat : AliData → List Int
+  | .vec v => v
+  | .nd _ fl => fl
 
 structure Ali where
   dtype : DType
@@ -138,7 +144,7 @@ def checkFeat (fix : Option Nat) (st : St) (f : Feat) : Except Err (Feat × St) 
 
 /-- Length check and cropping: `T + fix >= Tp > T → ali[:T]`. -/
 def checkAliData (fix : Option Nat) (T : Nat) : AliData → Except Err AliData
-  | .nd _ => .error .aliDims
+  | .nd _ _ => .error .aliDims
   | .vec v =>
     if v.length = T then .ok (.vec v)
     else
@@ -368,9 +374,9 @@ def infoStep (validate : Bool) (fix : Option Nat) (st : St) (acc : Acc) (u : Utt
         match ali' with
         | none => .ok acc1
         | some a' =>
-          match a'.data with
-          | .vec v => aliInfo acc1 (runsOf v)
-          | .nd _ => .error .unpack
+          -- `unique_consecutive` flattens: without validation an alignment that is not 1-D is
+          -- counted entry by entry in storage order (with validation it was rejected above)
+          aliInfo acc1 (runsOf a'.data.flat)
       match aliAcc with
       | .error e => (u2, .error e)
       | .ok acc2 =>
